@@ -1,7 +1,7 @@
 (* Single entry point of all executable models:
    run_model id params rows  — ids are the property numbers / sub-models. *)
 Require Import Verif.common.Prelude.
-Require Import Verif.model.Vec Verif.model.Arc Verif.model.IntResult Verif.model.CStr Verif.model.Callback Verif.model.Slice Verif.model.Waker Verif.model.CView Verif.model.Glue Verif.model.Life Verif.model.Group.
+Require Import Verif.model.Vec Verif.model.Arc Verif.model.IntResult Verif.model.CStr Verif.model.Callback Verif.model.Slice Verif.model.Waker Verif.model.CView Verif.model.Glue Verif.model.Life Verif.model.Group Verif.model.LayoutCheck.
 
 Definition run_model (m : Z) (params : list Z) (rows : list (list Z)) : list (list Z) :=
   match m with
@@ -15,6 +15,7 @@ Definition run_model (m : Z) (params : list Z) (rows : list (list Z)) : list (li
   | 15%Z => run_cb params rows
   | 16%Z => run_c16 params rows
   | 19%Z => run_waker params rows
+  | 20%Z => run_layoutcheck params rows
   | 103%Z => run_ffi params rows
   | 106%Z => run_life params rows
   | 108%Z => run_casts params rows
